@@ -3,9 +3,10 @@
 // Contracts for package objectsets (comment-only; read by /verif's govc, never compiled into the product).
 package objectsets
 
-//@ props C03,C04
+//@ props C03,C04,C05,C11
 //@ func package-operator.run/internal/controllers/objectsets.(*objectSetPhasesReconciler).reconcileLocalPhase
 //@   requires [C03] !failedSoFar()
+//@   requires [C11] len(phase.Class) == 0
 //@   ghost failedSoFar() := old(failedSoFar()) || result2 != nil || !(len(result1.PhaseName) == 0 && len(result1.FailedProbes) == 0)
 //@   ensures [C03] failedSoFar() == (old(failedSoFar()) || result2 != nil || !(len(result1.PhaseName) == 0 && len(result1.FailedProbes) == 0))
 //@   ensures tdPending() == old(tdPending())
@@ -33,6 +34,8 @@ package objectsets
 
 //@ func package-operator.run/internal/controllers/objectsets.(*objectSetPhasesReconciler).teardownPhase
 //@   requires [C04] !tdPending()
+//@   requires [C05] !finalizers(clientObj(objectSet))["orphan"]
+//@   ensures finalizers(clientObj(objectSet)) == old(finalizers(clientObj(objectSet)))
 //@   ghost tdPending() := old(tdPending()) || err != nil || !cleanupDone
 //@   ensures [C04] tdPending() == (old(tdPending()) || err != nil || !cleanupDone)
 //@   ensures gomem_unchanged()
@@ -41,6 +44,7 @@ package objectsets
 //@   requires [C04] !tdPending()
 //@   loop 1 invariant [C04] !tdPending()
 //@   loop 1 invariant 0 <= idx
+//@   loop 1 invariant [C05] !finalizers(clientObj(objectSet))["orphan"]
 //@   loop 1 invariant gomem_unchanged_in_loop()
 //@   at teardownPhase#1 assert [C04] idx < old(len(phasesOf(objectSet)))
 //@   at teardownPhase#1 assert [C04] arg2.Name == old(slice_of("package-operator.run/apis/core/v1alpha1.ObjectSetTemplatePhase", phasesOf(objectSet))[len(phasesOf(objectSet)) - 1 - idx].Name)
@@ -67,11 +71,11 @@ package objectsets
 //@   loop 1 invariant 0 <= idx && idx <= len(refs) && gomem_unchanged()
 //@   loop 1 invariant forall k int :: 0 <= k && k < idx ==> refs[k].Name != ref.Name
 
-//@ props C03,C15
+//@ props C03,C06,C15
 //@ func package-operator.run/internal/controllers/objectsets.(*objectSetRemotePhaseReconciler).Reconcile
 //@   sink Client.Create#1 requires [C15] getResult(clientObj(currentObjectSetPhase)) == 4 || lastGet() == 4
 //@   sink Client.Patch#1 requires [C09,C15] true
-//@   at return#7 assert [C03,C15] availableCond != nil && availableCond.ObservedGeneration == genOf(objstate(clientObj(currentObjectSetPhase)))
+//@   at return#7 assert [C03,C06,C15] availableCond != nil && availableCond.ObservedGeneration == genOf(objstate(clientObj(currentObjectSetPhase)))
 
 //@ props C03,C06
 //@ func package-operator.run/internal/controllers/objectsets.(*objectSetPhasesReconciler).Reconcile
